@@ -7,6 +7,7 @@
 From Coq Require Import List NArith Bool String.
 From Verif Require Import Kv.KeyOrd Kv.AList Kv.Spec Kv.Mem Kv.Sql Kv.Refine Kv.Facts Kv.KvGen
   Kv.KvCorr Gen.KvSql.
+From Verif Require Import Kv.Own Kv.OwnSkel Kv.OwnProofs Kv.Tables Kv.TablesProofs Kv.Hashed Gen.KvMemOwn.
 Import ListNotations.
 Local Open Scope N_scope.
 
@@ -152,6 +153,47 @@ Theorem C05_walk_window : forall (l : table) off n i,
 Proof. exact (@window_nth (key * entry)). Qed.
 Print Assumptions C05_walk_window.
 
+(** the four walks of the reference map, by definition of [spec_step] *)
+Theorem C05_walk_exact : forall s f c off n desc,
+  spec_step s (BWalk f) = (s, walk_result f s) /\
+  spec_step s (BWalkClass c f) = (s, walk_result f (filter (has_class c) s)) /\
+  spec_step s (BWalkPartial off n desc f) = (s, walk_result f (window off n (dir desc s))) /\
+  spec_step s (BWalkPartialClass c off n desc f)
+  = (s, walk_result f (window off n (dir desc (filter (has_class c) s)))).
+Proof. exact walk_exact. Qed.
+Print Assumptions C05_walk_exact.
+
+(** the window holds min(n, what is left after the offset) entries: no more
+    than the limit, nothing beyond the end *)
+Theorem C05_walk_window_length : forall (l : table) off n,
+  List.length (window off n l)
+  = Nat.min (N.to_nat (N.min n (lenN l))) (List.length l - N.to_nat (N.min off (lenN l))).
+Proof. exact (@window_length (key * entry)). Qed.
+Print Assumptions C05_walk_window_length.
+
+(** what a backend shows to the callback is the list the reference map
+    determines, whatever the callback is: a callback that keeps state between
+    entries sees the same sequence on the memory and on the SQL backend *)
+Theorem C05_backend_walks_exact : forall t f c off n desc,
+  nodupk t -> off < two63 -> n < two63 ->
+  (snd (mem_step t (BWalk f)) = walk_result f (abs t) /\
+   snd (mem_step t (BWalkClass c f)) = walk_result f (filter (has_class c) (abs t)) /\
+   snd (mem_step t (BWalkPartial off n desc f)) = walk_result f (window off n (dir desc (abs t))) /\
+   snd (mem_step t (BWalkPartialClass c off n desc f))
+   = walk_result f (window off n (dir desc (filter (has_class c) (abs t))))) /\
+  (snd (sql_step gen_sqlite_methods t (BWalk f)) = walk_result f (abs t) /\
+   snd (sql_step gen_sqlite_methods t (BWalkClass c f)) = walk_result f (filter (has_class c) (abs t)) /\
+   snd (sql_step gen_sqlite_methods t (BWalkPartial off n desc f))
+   = walk_result f (window off n (dir desc (abs t))) /\
+   snd (sql_step gen_sqlite_methods t (BWalkPartialClass c off n desc f))
+   = walk_result f (window off n (dir desc (filter (has_class c) (abs t))))).
+Proof.
+  exact (fun t f c off n desc Hn Ho Hl =>
+    conj (backend_walks_exact mem_step t f c off n desc mem_step_refines Hn Ho Hl)
+         (backend_walks_exact _ t f c off n desc gen_sqlite_step_refines Hn Ho Hl)).
+Qed.
+Print Assumptions C05_backend_walks_exact.
+
 (** ** Keys *)
 
 Theorem C05_ordered_keys_verbatim : forall hk k,
@@ -170,6 +212,20 @@ Theorem C05_unordered_any_key : forall hk k,
   map_key gen_max_key_len false hk k = Some (hk k).
 Proof. exact (unordered_any_key gen_max_key_len). Qed.
 Print Assumptions C05_unordered_any_key.
+
+(** An unordered store hands hashed keys to the backend.  For every history
+    of keyed calls, Count and Clear whose keys the hash keeps apart it returns
+    what the map keyed by the user's own keys returns - a map that accepts
+    every key.  (Full walks visit the same entries in the order of the hashed
+    keys, "the store's key order"; partial walks are refused.)  The premise
+    is needed: [C05_colliding_keys_refuted]. *)
+Theorem C05_unordered_is_user_key_map : forall maxlen hk jv K uops,
+  (forall a b, In a K -> In b K -> hk a = hk b -> a = b) ->
+  Forall (uop_in K) uops ->
+  snd (run (kv_step maxlen false hk jv spec_step) [] uops)
+  = snd (run (kv_step maxlen false (fun k => k) jv spec_step) [] uops).
+Proof. exact unordered_is_user_key_map. Qed.
+Print Assumptions C05_unordered_is_user_key_map.
 
 (** The two panic sites of the memory walk (slice bounds in partialKeys, nil
     entry in walkKeys) are unreachable whenever offset + limit does not wrap
@@ -272,6 +328,113 @@ Theorem C05_walk_all_decodable : forall jv (a : table),
 Proof. exact visit_all_decodable. Qed.
 Print Assumptions C05_walk_all_decodable.
 
+(** ** The contents are a function of the history of calls alone
+
+    Go byte slices are references.  Kv/Own.v runs the memory backend over a
+    heap of buffers and lets the caller, between any two calls, overwrite any
+    buffer it passed in (SetBytes, AppendBytes, ...) or was given (GetBytes,
+    the value shown to a Mutate function or a walk).  With the copy points of
+    mem_entry.go as the translator extracts them, results and contents are
+    those of the memory model on the history with the caller's writes erased
+    - hence (C05_mem_refines_spec) those of the reference map. *)
+Theorem C05_mem_contents_history_only : forall ops,
+  run_okb (copies_of gen_mem_entry_skel) own_init ops = true ->
+  cont (fst (own_run (copies_of gen_mem_entry_skel) own_init ops))
+  = fst (run mem_step [] (erase_run (copies_of gen_mem_entry_skel) own_init ops)) /\
+  snd (own_run (copies_of gen_mem_entry_skel) own_init ops)
+  = snd (run mem_step [] (erase_run (copies_of gen_mem_entry_skel) own_init ops)).
+Proof. exact gen_mem_contents_history_only. Qed.
+Print Assumptions C05_mem_contents_history_only.
+
+(** no buffer of the store is ever one the caller can write (so the store
+    never writes into the caller's memory either: it only writes its own) *)
+Theorem C05_mem_store_buffers_private : forall ops,
+  run_okb (copies_of gen_mem_entry_skel) own_init ops = true ->
+  let '(st, h, kn) := fst (own_run (copies_of gen_mem_entry_skel) own_init ops) in
+  forall b, In b (bufs st) -> ~ In b kn.
+Proof. exact gen_mem_store_buffers_private. Qed.
+Print Assumptions C05_mem_store_buffers_private.
+
+Theorem C05_mem_copy_points :
+  copies_of gen_mem_entry_skel = all_copy /\ gen_mem_buf_outside = [].
+Proof. exact (conj gen_mem_entry_copies gen_mem_buf_private). Qed.
+Print Assumptions C05_mem_copy_points.
+
+(** ** Several handles, several tables, the table life cycle (tables.go) *)
+
+Theorem C05_tables_sqlite_refine_spec : forall maxlen hk jv hs slots ops,
+  forallb lop_okb ops = true ->
+  snd (run (l_step maxlen hk jv (sql_step gen_sqlite_methods) true hs) (init_state true slots) ops)
+  = snd (run (l_step maxlen hk jv spec_step true hs) (init_state true slots) ops) /\
+  srel (fst (run (l_step maxlen hk jv (sql_step gen_sqlite_methods) true hs) (init_state true slots) ops))
+       (fst (run (l_step maxlen hk jv spec_step true hs) (init_state true slots) ops)).
+Proof. exact gen_sqlite_tables_refine. Qed.
+Print Assumptions C05_tables_sqlite_refine_spec.
+
+Theorem C05_tables_mem_refine_spec : forall maxlen hk jv hs slots ops,
+  forallb lop_okb ops = true ->
+  snd (run (l_step maxlen hk jv mem_step false hs) (init_state false slots) ops)
+  = snd (run (l_step maxlen hk jv spec_step false hs) (init_state false slots) ops) /\
+  srel (fst (run (l_step maxlen hk jv mem_step false hs) (init_state false slots) ops))
+       (fst (run (l_step maxlen hk jv spec_step false hs) (init_state false slots) ops)).
+Proof.
+  exact (fun maxlen hk jv hs slots ops =>
+           tables_refine_spec maxlen hk jv mem_step false hs slots ops mem_step_refines).
+Qed.
+Print Assumptions C05_tables_mem_refine_spec.
+
+(** a call through one handle leaves every other table as it was *)
+Theorem C05_call_touches_own_table : forall maxlen hk jv bstep persistent hs s h u slot ordered x,
+  nth_error hs h = Some (slot, ordered) -> x <> slot ->
+  slot_get (fst (l_step maxlen hk jv bstep persistent hs s (LOp h u))) x = slot_get s x.
+Proof. exact op_touches_own_slot. Qed.
+Print Assumptions C05_call_touches_own_table.
+
+(** in a history of calls on existing tables, the calls that go to one table -
+    through whichever handles, ordered or hashing - see exactly one store *)
+Theorem C05_table_is_one_store : forall maxlen hk jv bstep persistent hs x ops s t,
+  forallb (is_lop hs) ops = true ->
+  (forall y, (y < List.length s)%nat -> slot_get s y <> None) ->
+  slot_get s x = Some t ->
+  proj_results hs x ops (snd (run (l_step maxlen hk jv bstep persistent hs) s ops))
+  = snd (run (flag_step maxlen hk jv bstep) t (proj_slot hs x ops)) /\
+  slot_get (fst (run (l_step maxlen hk jv bstep persistent hs) s ops)) x
+  = Some (fst (run (flag_step maxlen hk jv bstep) t (proj_slot hs x ops))).
+Proof. exact slot_projection. Qed.
+Print Assumptions C05_table_is_one_store.
+
+(** a call on a table that does not exist changes nothing and reports an error *)
+Theorem C05_call_on_missing_table : forall maxlen hk jv bstep persistent hs s h u slot ordered,
+  nth_error hs h = Some (slot, ordered) -> slot_get s slot = None ->
+  fst (l_step maxlen hk jv bstep persistent hs s (LOp h u)) = s /\
+  exists e, snd (l_step maxlen hk jv bstep persistent hs s (LOp h u)) = RErr e.
+Proof. exact op_on_dropped. Qed.
+Print Assumptions C05_call_on_missing_table.
+
+Theorem C05_create_missing_keeps_contents : forall maxlen hk jv bstep persistent hs s h slot ordered t,
+  nth_error hs h = Some (slot, ordered) -> slot_get s slot = Some t ->
+  l_step maxlen hk jv bstep persistent hs s (LLife h KMissing) = (s, RUnit).
+Proof. exact create_missing_keeps. Qed.
+Print Assumptions C05_create_missing_keeps_contents.
+
+Theorem C05_create_existing_refused : forall maxlen hk jv bstep persistent hs s h slot ordered t,
+  persistent = true ->
+  nth_error hs h = Some (slot, ordered) -> slot_get s slot = Some t ->
+  l_step maxlen hk jv bstep persistent hs s (LLife h KCreate) = (s, RErr EOther).
+Proof. exact create_existing_refused. Qed.
+Print Assumptions C05_create_existing_refused.
+
+Theorem C05_destroy_create_empties : forall maxlen hk jv bstep persistent hs s h slot ordered t,
+  persistent = true ->
+  nth_error hs h = Some (slot, ordered) -> slot_get s slot = Some t ->
+  let s1 := fst (l_step maxlen hk jv bstep persistent hs s (LLife h KDestroy)) in
+  snd (l_step maxlen hk jv bstep persistent hs s (LLife h KDestroy)) = RUnit /\
+  slot_get s1 slot = None /\
+  snd (l_step maxlen hk jv bstep persistent hs s1 (LLife h KCreate)) = RUnit /\
+  slot_get (fst (l_step maxlen hk jv bstep persistent hs s1 (LLife h KCreate))) slot = Some [].
+Proof. exact destroy_create_empties. Qed.
+Print Assumptions C05_destroy_create_empties.
+
 (** ** The source is the deployed one *)
 Theorem C05_source_frozen :
   gen_sqlite_methods = deployed_methods /\
@@ -279,11 +442,11 @@ Theorem C05_source_frozen :
   gen_sqlite_ops = deployed_ops /\
   gen_psql_ops = deployed_ops /\
   gen_max_key_len = 255 /\
-  gen_sqlite_scheme = "( k text not null unique, c text not null, v blob not null )"%string.
+  scheme_okb gen_sqlite_columns = true.
 Proof.
   exact (conj gen_sqlite_methods_frozen (conj gen_psql_methods_frozen
         (conj gen_sqlite_ops_frozen (conj gen_psql_ops_frozen
-        (conj gen_max_key_len_frozen gen_sqlite_scheme_frozen))))).
+        (conj gen_max_key_len_frozen gen_sqlite_scheme_ok))))).
 Qed.
 Print Assumptions C05_source_frozen.
 
@@ -355,3 +518,71 @@ Example C05_nonvacuous_keys :
   map_key gen_max_key_len true (fun k => k) (List.repeat 97 255) = Some (List.repeat 97 255) /\
   map_key gen_max_key_len true (fun k => k) (List.repeat 97 256) = None.
 Proof. vm_compute. split; reflexivity. Qed.
+
+(** without the copy in newMemEntry (bytes.NewBuffer(bs)) the contents depend
+    on what the caller does with its buffer afterwards; likewise when bytes()
+    hands out the buffer's storage *)
+Example C05_adopting_new_entry_refuted :
+  let ops := [CAlloc [49; 50]; HAppend [107] 0%nat; CWrite 0%nat [238; 238]; HGet [107]] in
+  run_okb adopt_new own_init ops = true /\
+  snd (own_run adopt_new own_init ops) = [RUnit; RBytes [238; 238]] /\
+  snd (run mem_step [] (erase_run adopt_new own_init ops)) = [RUnit; RBytes [49; 50]].
+Proof. exact adopting_new_entry_refuted. Qed.
+
+Example C05_handing_out_storage_refuted :
+  let ops := [CAlloc [49]; HAdd [107] [] 0%nat; HGet [107]; CWrite 1%nat [238]; HGet [107]] in
+  run_okb hand_out own_init ops = true /\
+  snd (own_run hand_out own_init ops) = [RUnit; RBytes [49]; RBytes [238]] /\
+  snd (run mem_step [] (erase_run hand_out own_init ops)) = [RUnit; RBytes [49]; RBytes [49]].
+Proof. exact handing_out_storage_refuted. Qed.
+
+(** a history of the ownership theorem in which the caller recycles one
+    scratch buffer for every call and overwrites what it was given *)
+Example C05_nonvacuous_ownership :
+  let ops := [CAlloc [49; 50]; HAppend [107] 0%nat; CWrite 0%nat [51]; HAppend [107] 0%nat;
+              CWrite 0%nat [238]; HGet [107]; CWrite 2%nat [238; 238; 238]; HSet [107] 0%nat;
+              CWrite 0%nat [52]; HMutate [107] (fun v => Some (v ++ [53])); HGet [107]; HCount] in
+  run_okb (copies_of gen_mem_entry_skel) own_init ops = true /\
+  snd (own_run (copies_of gen_mem_entry_skel) own_init ops)
+  = [RUnit; RUnit; RBytes [49; 50; 51]; RUnit; RUnit; RBytes [238; 53]; RCount 1].
+Proof. vm_compute. split; reflexivity. Qed.
+
+(** two tables of one file, an ordered and a hashing handle on the first; the
+    second is dropped and created again *)
+Example C05_nonvacuous_tables :
+  let hs := [(0, true); (0, false); (1, true)]%nat in
+  let hkf := fun k : key => 104 :: k in
+  let ops := [LOp 0 (UAdd ex_k [49]); LAll KMissing; LOp 0 (UAdd ex_k [49]); LOp 1 (UAdd ex_k [50]);
+              LOp 2 (UAdd ex_k [51]); LOp 0 UCount; LOp 0 (UGet (104 :: ex_k)); LLife 2 KDestroy;
+              LOp 2 (UGet ex_k); LOp 0 (UGet ex_k); LLife 2 KCreate; LOp 2 UCount; LAll KCreate] in
+  forallb lop_okb ops = true /\
+  snd (run (l_step gen_max_key_len hkf Kv.KvCorr.json_ok (sql_step gen_sqlite_methods) true hs)
+           (init_state true 2) ops)
+  = [RErr EOther; RUnit; RUnit; RUnit; RUnit; RCount 2; RBytes [50]; RUnit; RErr EOther; RBytes [49];
+     RUnit; RCount 0; RErr EOther].
+Proof. vm_compute. split; reflexivity. Qed.
+
+Example C05_colliding_keys_refuted :
+  let hk := fun _ : key => [0] in
+  let uops := [UAdd [97] [49]; UAdd [98] [50]; UCount] in
+  snd (run (kv_step 255 false hk (fun _ => true) spec_step) [] uops) = [RUnit; RErr EExists; RCount 1] /\
+  snd (run (kv_step 255 false (fun k => k) (fun _ => true) spec_step) [] uops) = [RUnit; RUnit; RCount 2].
+Proof. exact colliding_keys_refuted. Qed.
+
+(** a history of the unordered-store theorem with a hash that is injective on
+    the keys used (it prefixes a byte) *)
+Example C05_nonvacuous_unordered :
+  let hk := fun k : key => 104 :: k in
+  let K := [[97]; [98]; List.repeat 97 300] in
+  let uops := [UAdd [97] [49]; UAddClass [98] ex_c [50]; UAdd (List.repeat 97 300) [51]; UReplace [97] [52];
+               UGet [97]; UMutate [98] (fun _ => MSet [53]); URemove (List.repeat 97 300); UCount] in
+  Forall (uop_in K) uops /\
+  (forall a b, In a K -> In b K -> hk a = hk b -> a = b) /\
+  snd (run (kv_step gen_max_key_len false hk Kv.KvCorr.json_ok spec_step) [] uops)
+  = [RUnit; RUnit; RUnit; RUnit; RBytes [52]; RUnit; RUnit; RCount 2].
+Proof.
+  split; [|split].
+  - repeat (apply Forall_cons); try apply Forall_nil; cbn [uop_in In]; auto 10.
+  - intros a b _ _ H. now injection H.
+  - vm_compute. reflexivity.
+Qed.
